@@ -92,6 +92,12 @@ def mem_desc(rng, ty, forms=FORMS):
     return 'm%s,%s,%d,%d,%d' % (ty, form, scale, disp, index)
 
 
+def baseless(line):
+    """does the case line have a memory operand without a base register (forms d, i, id)?"""
+    import re
+    return re.search(r'\bm\w+,(?:d|i|id),', line) is not None
+
+
 class Info:
     def __init__(self, name, num, line):
         self.name, self.num = name, num
@@ -127,8 +133,9 @@ def operand_text(kind, shape, val, rng, c20=False):
         return '%s:%x' % (shape, val)
     tys = MEM_INT_TYPES if kind == 'i' else KIND_MEM[kind]
     ty = rng.choice(tys)
-    forms = ['b', 'bd', 'bi', 'bid'] if c20 else FORMS
-    return mem_desc(rng, ty, forms) + ':%x' % (val & ((1 << (8 * TYPE_SIZE[ty])) - 1))
+    # C20 too: base-less forms embed absolute addresses in the translated C; the harness keeps the block at a fixed address
+    # in its emitc / runso modes (c20_select_block) and derives the displacement / index from it (fix_disps_c20)
+    return mem_desc(rng, ty, FORMS) + ':%x' % (val & ((1 << (8 * TYPE_SIZE[ty])) - 1))
 
 
 def gen_case(info, rng, cid, vals=None, shapes=None, dst=None, br=None, c20=False, pre=None, post=None, prime=None, press=None, far=None,
@@ -172,8 +179,10 @@ def gen_case(info, rng, cid, vals=None, shapes=None, dst=None, br=None, c20=Fals
             d = rng.choice(cands)
         else:
             tys = MEM_INT_TYPES if info.res == 'i' else KIND_MEM[info.res]
-            d = mem_desc(rng, rng.choice(tys), ['b', 'bd', 'bi', 'bid'] if c20 else FORMS)
+            d = mem_desc(rng, rng.choice(tys), FORMS)
     line = '%s %s %s %s %s %s' % (cid, info.name, kinds, d, ops[0], ops[1])
+    if c20 and baseless(line) and rng.random() < 0.4:
+        line += ' hiblk=1'       # the block (hence every absolute address of the case) lies above 2^32
     if info.name in OVF:
         if br is None:
             sd, ud = info.ovfdef[0] == '1', info.ovfdef[1] == '1'
